@@ -154,6 +154,54 @@ def run(ctx):
         "get_status polls recv again only on RecvError::Lagged; Ok(status) and Closed return" if ok_ret else
         "get_status may loop after an Ok(status) or Closed result (first request no longer wins)")
 
+    # ---------------------------------------------------------------- I-FIRST
+    # "the status of the first shutdown request": the channel is bounded and get_status skips Lagged, so the first
+    # request must be the only one ever broadcast: every notify.send is dominated by the winning arm of an atomic
+    # test-and-set of the Shutdown's flag (and the flag is released only when that send failed)
+    sends = []
+    for b in prog.bodies.values():
+        for bb, t in K.calls(b):
+            ck = F.callee_key(t) or ""
+            if ck.startswith("tokio::sync::broadcast::") and ck.rsplit("::", 1)[-1] == "send" and dep.has_field(dep.arg_origins(b, bb, 0), "Shutdown", "notify"):
+                sends.append((b, bb, t))
+    ctx.require(len(sends) >= 1, "I-FIRST: no broadcast send on Shutdown.notify found")
+    for b, bb, t in sends:
+        bg = cfg(b)
+        won = None
+        for s_ in bg.dom_chain(bb):
+            if b.term(s_)[0] != "switch":
+                continue
+            c = dep.switch_condition(b, s_)
+            if not (c and c["kind"] == "call"):
+                continue
+            ck = F.callee_key(c["term"]) or ""
+            nm = ck.rsplit("::", 1)[-1]
+            if "atomic" not in ck or nm not in ("swap", "compare_exchange", "fetch_or", "compare_exchange_weak"):
+                continue
+            if not dep.has_field(dep.arg_origins(b, c["call_bb"], 0), "Shutdown", "requested"):
+                continue
+            tr, fa = dep.bool_branches(b, s_)
+            # swap(true)/fetch_or(true) return the previous value: the request is first on the `false` arm
+            if nm in ("swap", "fetch_or") and F.const_int(F.call_args(c["term"])[1]) == 1 and bg.dominates(fa, bb) and not bg.dominates(tr, bb):
+                won = s_
+        key = "I-FIRST:send@%s" % b.key.rsplit("::", 1)[-1]
+        if won is None:
+            ctx.bad("I-FIRST", key, F.call_loc(t),
+                    "a shutdown status is broadcast in %s without first winning the `requested` flag: later requests also enter the bounded channel and, once it overflows before run_internet polls it, a later status is returned instead of the first" % b.pretty)
+        else:
+            ctx.ok("I-FIRST", key, F.call_loc(t), "broadcast only on the arm where requested.swap(true) returned false: at most one status is ever in the channel")
+    # the flag is only ever cleared where the send failed
+    for b in prog.bodies.values():
+        for bb, t in K.calls(b):
+            ck = F.callee_key(t) or ""
+            if "atomic" in ck and ck.rsplit("::", 1)[-1] == "store" and dep.has_field(dep.arg_origins(b, bb, 0), "Shutdown", "requested"):
+                bg = cfg(b)
+                sb = [x for x in sends if x[0] is b]
+                okk = F.const_int(F.call_args(t)[1]) == 0 and any(bg.dominates(sbb, bb) for _b, sbb, _t in sb) and _on_err_arm(b, bg, bb, sb)
+                (ctx.ok if okk else ctx.bad)("I-FIRST", "I-FIRST:release@%s" % b.key.rsplit("::", 1)[-1], F.call_loc(t),
+                    "the flag is released only when the broadcast failed (nobody listening yet)" if okk else
+                    "the first-request flag is cleared outside the failed-send arm: a later request can be broadcast after the first")
+
     # ---------------------------------------------------------------- I-TIMEOUT
     rt = prog.body("elvis_core::internet::run_internet_with_timeout::{closure#0}")
     aps = K.await_points(rt)
@@ -235,3 +283,19 @@ def _place_ty(body, pl):
         if isinstance(e, list) and e[0] == "f":
             return body.tystr(e[4])
     return body.local_tystr(pl[0])
+
+
+
+def _on_err_arm(b, bg, bb, sends):
+    """bb lies on the Err arm of the match on the result of one of the sends."""
+    for _b, sbb, t in sends:
+        d = F.call_dest(t)
+        for s_ in bg.dom_chain(bb):
+            if b.term(s_)[0] != "switch":
+                continue
+            c = dep.switch_condition(b, s_)
+            if c and c["kind"] == "discr" and c["place"][0] == d[0]:
+                err = K.skip_false_edges(b, dep.switch_target(b, s_, 1))
+                if bg.dominates(err, bb):
+                    return True
+    return False
